@@ -7,7 +7,7 @@ EXTENDS Grpc, TLC, Json
 CONSTANT Emit
 VARIABLE n   \* number of operations performed on the (stateless) interceptor
 Cfgs == [custom : BOOLEAN, customle : BOOLEAN]
-Ops == [kind : Kinds, grant : BOOLEAN, err : BOOLEAN, cls : {"success", "ignore", "dropped"}]
+Ops == [kind : Kinds, grant : BOOLEAN, err : BOOLEAN, cls : {"success", "ignore", "dropped"}, lecode : {"Unavailable", "Aborted"}]
 
 Init == n = 0
 Next == /\ n < 1
